@@ -142,8 +142,10 @@ def encEv (nSubs nMacros : Nat) (e : Enc) (ev : MEv) : Except CErr Enc :=
   match r with
   | .error x => .error x
   | .ok e' =>
-    -- a rest/tie/note of length 0 emits nothing and is not remembered as the last event
-    if ev.type < mds_REST ∨ ev.type ≥ mds_SLR ∨ ev.arg ≠ 0 then .ok { e' with lastType := ev.type } else .ok e'
+    -- a rest/tie/note of length 0 emits nothing and is not remembered as the last event; nor is a
+    -- `CARRY` event, which only `convert_macro_track` encodes (D26, fixed)
+    if (ev.type < mds_REST ∧ ev.type ≠ mds_CARRY) ∨ ev.type ≥ mds_SLR ∨ ev.arg ≠ 0 then .ok { e' with lastType := ev.type }
+    else .ok e'
 
 def encAll (nSubs nMacros : Nat) : Enc → List MEv → Except CErr Enc
   | e, [] => .ok e
